@@ -25,6 +25,7 @@
 #include <vector>
 #include <functional>
 #include <chrono>
+#include <cstdlib>
 
 namespace vsched {
 
@@ -89,6 +90,7 @@ public:
 	}
 
 	bool deadlocked() const { return deadlock; }
+	std::function<void ()> onDeadlock;   // prints the DEADLOCK line with whatever state the harness wants to show
 
 	// ---- called by the injected primitives ----
 	// announce the next visible action of the calling thread, yield, and return when chosen
@@ -198,17 +200,13 @@ private:
 			bool all = true;
 			for(auto & t : threads) if(! t.finished) all = false;
 			if(! all) {
-				// every unfinished thread is blocked for ever
+				// every unfinished thread is blocked for ever: the case is over; the blocked threads
+				// cannot be unwound, so the process ends here (the driver re-runs the remaining cases)
 				deadlock = true;
-				std::printf("DEADLOCK");
-				for(int i = 0; i < n; ++i) if(! threads[i].finished) std::printf(" t%d:%s", i, threads[i].waitingCv ? "parked" : "mutex");
-				std::printf("\n");
+				if(onDeadlock) onDeadlock(); else std::printf("DEADLOCK\n");
+				std::printf("end\n");
 				std::fflush(stdout);
-				// release everybody so that the process can end: the case is over
-				for(auto & t : threads) { t.waitingCv = false; t.finished = true; }
-				current = -2;
-				cvTurn.notify_all();
-				return;
+				std::_Exit(3);
 			}
 		}
 		current = chosen;
@@ -218,16 +216,9 @@ private:
 
 	void waitTurn(int me) {
 		std::unique_lock<std::mutex> lk(mx);
-		cvTurn.wait(lk, [&] { return current == me || current == -2; });
-		if(current == -2) {
-			// deadlock reported: unwind this thread without touching shared state any further
-			lk.unlock();
-			throw DeadlockAbort();
-		}
+		cvTurn.wait(lk, [&] { return current == me; });
 	}
 
-public:
-	struct DeadlockAbort {};
 };
 
 // ---------------------------------------------------------------------------------------------
@@ -294,6 +285,7 @@ struct VCondVar
 		Scheduler & s = Scheduler::get();
 		while(! pred()) {
 			if(! s.isRegistered(this)) return;
+			s.point(Kind::CvBlock, this);      // the window between evaluating the predicate and blocking
 			s.logAction("cvblock", this, 0, false);
 			s.cvBlock(this, lock.mutex(), false);
 			s.logAction("cvwake", this, 0, false);
@@ -304,6 +296,7 @@ struct VCondVar
 		Scheduler & s = Scheduler::get();
 		while(! pred()) {
 			if(! s.isRegistered(this)) return pred();
+			s.point(Kind::CvBlock, this);
 			s.logAction("cvblock", this, 0, false);
 			s.cvBlock(this, lock.mutex(), true);
 			s.logAction("cvwake", this, 0, false);
